@@ -932,6 +932,8 @@ class Emitter:
                 return f(*a)
             return g
         self.ctl = Ctl(wrap(oldctl.ret), wrap(oldctl.brk), wrap(oldctl.cont))
+        if getattr(oldctl, "brkv", None) is not None:
+            self.ctl.brkv = wrap(oldctl.brkv)       # `break <value>` (loop_value) leaves the branch too
         try:
             code = build(kk)
         finally:
@@ -1245,6 +1247,9 @@ class Emitter:
         return self.expr(e.e, env, lambda t, ty, env1: self.ctl.ret(env1, t, ty))
 
     def e_break(self, e, env, k):
+        if e.e is not None and e.label is None and getattr(self.ctl, "brkv", None) is not None:
+            # `break <value>` out of a `loop` used as a value (optional vocabulary key `loop_break_value`, loop_value)
+            return self.expr(e.e, env, lambda t, ty, env1: self.ctl.brkv(env1, t, ty))
         if e.e is not None or e.label is not None or self.ctl.brk is None:
             raise EmitError("break with a value / label, or outside a loop")
         return self.ctl.brk(env)
@@ -2700,9 +2705,48 @@ class Emitter:
         return self.while_like(e.cond, e.body, env, k)
 
     def e_loop(self, e, env, k):
+        if self.v.get("loop_break_value") and self.breaks_with_value(e.body):
+            return self.loop_value(e, env, k)
         return self.while_like(None, e.body, env, k)
 
-    def while_like(self, cond, bodyblk, env, k):
+    def breaks_with_value(self, node):
+        """a `break <value>` that leaves THIS loop (nested loops and closures are not looked into)"""
+        found = []
+
+        def walk(x):
+            if isinstance(x, N):
+                if x.kind == "break" and x.e is not None and x.label is None:
+                    found.append(1)
+                if x.kind in ("closure", "loop", "while", "for"):
+                    return
+                for v in x.__dict__.values():
+                    walk(v)
+            elif isinstance(x, (list, tuple)):
+                for y in x:
+                    walk(y)
+        walk(node)
+        return bool(found)
+
+    def loop_value(self, e, env, k):
+        """optional vocabulary key `loop_break_value: True`: `let x = loop { .. break v; .. };` -- the value is carried
+        out of the loop in one more loop-state variable of type option (None until a `break v` stores `Some v` and
+        breaks); after the loop it is taken out again (None there = the loop ended without a value: not reachable,
+        every `break` of such a loop carries a value -- rustc checks it)"""
+        if self.pure_mode:
+            raise NeedsBind()
+        hv = "loop value"         # no Rust identifier: cannot clash with a variable of the source
+        n = self.fresh("bv")
+        env1 = env.bind(hv, n, ("opt", UNKNOWN), True)
+        cell = []
+
+        def after(_t, _ty, env2):
+            x = self.fresh("lv")
+            out = self.restrict(env2, env)
+            return "match %s with\n| Some %s =>\n%s\n| None => None\nend" % (
+                env2.get(hv).coq, x, ind(k(x, cell[0] if cell else UNKNOWN, out), 4))
+        return "let %s := None in\n%s" % (n, self.while_like(None, e.body, env1, after, extra_state=[hv], brk_value=(hv, cell)))
+
+    def while_like(self, cond, bodyblk, env, k, extra_state=None, brk_value=None):
         fuel = self.loop_fuel()
         if callable(fuel):
             fuel = fuel(env)      # a fuel expression over the variables' current Coq names
@@ -2710,6 +2754,8 @@ class Emitter:
         probe = N("block", stmts=[N("expr", e=cond, semi=True, attrs=[])] if cond is not None and cond.kind != "letcond" else
                   ([N("expr", e=cond.e, semi=True, attrs=[])] if cond is not None else []), tail=bodyblk)
         st = self.assigned(probe, env)
+        if extra_state:
+            st = list(st) + [n for n in extra_state if n not in st]
         ret = self.has_return(bodyblk)
         stn = []
         env2 = env
@@ -2725,6 +2771,15 @@ class Emitter:
         self.pure_mode = 0
         self.ctl = Ctl(((lambda envx, t, ty: "Some (LRet (%s, %s))" % (tup(envx), t)) if rs else (lambda envx, t, ty: "Some (LRet %s)" % t)) if ret else old.ret,
                        lambda envx: "Some (%s %s)" % (brk, tup(envx)), lambda envx: "Some (%s %s)" % (nxt, tup(envx)))
+        if brk_value is not None:
+            hv, cell = brk_value
+            brk0 = self.ctl.brk
+
+            def brkv(envx, t, ty):
+                if not cell:
+                    cell.append(ty)
+                return brk0(envx.rebind(hv, "(Some %s)" % t))
+            self.ctl.brkv = brkv
         try:
             run_body = lambda envb: self.expr(bodyblk, envb, lambda _t, _ty, envx: "Some (%s %s)" % (nxt, tup(envx)))
             if cond is None:
